@@ -214,7 +214,7 @@ func (f afield) tok() string {
 		s = "wrap2 " + f.c1.tok() + " " + f.c2.tok()
 	case "named":
 		s = "named " + map[bool]string{true: "T", false: "F"}[f.ign]
-	case "cols":
+	case "cols", "colsstar": // colsstar: changed_cols(prefix, ign, *) over rows whose (fixed) column set is f.cols
 		s = fmt.Sprintf("cols %s %s %d", hx(f.prefix), f.ignx.tok(), len(f.cols))
 		for _, c := range f.cols {
 			s += " " + hx(c)
@@ -257,6 +257,8 @@ func (f afield) sql() string {
 		return f.c1.sql() + " - " + f.c2.sql() + f.over()
 	case "named":
 		return "had_changed(" + map[bool]string{true: "true", false: "false"}[f.ign] + ", *)" + f.over()
+	case "colsstar":
+		return "changed_cols('" + f.prefix + "', " + f.ignx.sql() + ", *)" + f.over()
 	}
 	return "changed_cols('" + f.prefix + "', " + f.ignx.sql() + ", " + strings.Join(f.cols, ", ") + ")" + f.over()
 }
